@@ -175,6 +175,22 @@ pub fn oracle_c10(_p: &CSnap, s: &CSnap, info: &CInfo, res_greedy: bool, checks:
             t(&mut f, -u.ed_mech_out <= regen * (1.0 + 1e-9) + band, "regeneration-above-published-limit@SolvePower", format!("unit {i} regenerates {} W, published pwr_regen_max {regen}", -u.ed_mech_out));
         }
     }
+    // braking the consist can regenerate completely (request within the sum of the published regeneration limits):
+    // the whole assignment is regeneration, so no unit may be assigned more than its own published regeneration limit
+    // and fuel-burning units are assigned nothing
+    if req < 0.0 {
+        let regen_sum: f64 = info.unit_lims.iter().map(|l| l.1).sum();
+        if -req <= regen_sum * (1.0 - 1e-9) - band {
+            for (i, u) in s.units.iter().enumerate() {
+                let regen = info.unit_lims[i].1;
+                if u.is_conv {
+                    t(&mut f, u.l_out.abs() <= band, "fuel-burning-unit-brakes-although-batteries-can-regenerate-all@solve_negative_traction", format!("unit {i} assigned {} W", u.l_out));
+                } else {
+                    t(&mut f, -u.l_out <= regen * (1.0 + 1e-9) + band, "regeneration-assigned-above-published-limit@solve_negative_traction", format!("unit {i} assigned {} W with published pwr_regen_max {regen} W while the consist can regenerate the whole request ({regen_sum} W)", u.l_out));
+                }
+            }
+        }
+    }
     if res_greedy && req > 0.0 {
         let want = (req - info.b).max(0.0);
         t(&mut f, close(conv_sum, want, sc) || (conv_sum - want).abs() <= 1e-8 * req.abs(), "battery-first-violated@RESGreedy::solve_positive_traction", format!("fuel-burning units deliver {conv_sum} W, but request - battery capability = {want} W"));
